@@ -91,7 +91,7 @@ impl<'a> Tokenizer<'a> {
         loop {
             match tmp.peek_one() {
                 Some((_, ch)) => {
-                    if is_whitespace_char(ch) || is_delim_char(ch) {
+                    if is_word_end_char(ch) {
                         break;
                     }
                     tmp.next_one();
@@ -106,7 +106,7 @@ impl<'a> Tokenizer<'a> {
         loop {
             match self.peek_one() {
                 Some((_, ch)) => {
-                    if is_whitespace_char(ch) || is_delim_char(ch) {
+                    if is_word_end_char(ch) {
                         break;
                     }
                     self.next_one();
@@ -279,6 +279,11 @@ fn is_whitespace_char(ch: char) -> bool {
 
 fn is_delim_char(ch: char) -> bool {
     return ch == '(' || ch == ')' || ch == '[' || ch == ']' || ch == '{' || ch == '}';
+}
+
+// an operator spelled as a word ends at whitespace, at a delimiter and at the separators `,` `;` `:`
+fn is_word_end_char(ch: char) -> bool {
+    return is_whitespace_char(ch) || is_delim_char(ch) || ch == ',' || ch == ';' || ch == ':';
 }
 
 fn is_param_char(ch: char) -> bool {
